@@ -543,9 +543,9 @@ func BuildPolicyData(config *sharedConfig.PoliciesConfig, diagnosisFreeReverted 
 	}, nil
 }
 
-// inferPluginTypes makes every remedy, diagnosis and account authentication
-// infer its type now. Type() infers it on first use and keeps the result in
-// the struct; once the configuration is shared by transactions that first use
+// inferPluginTypes makes every remedy, diagnosis (its exporter too) and account
+// authentication infer its type now. Type() and ExporterType() infer it on
+// first use and keep the result in the struct; once the configuration is shared by transactions that first use
 // would be an unsynchronised write next to other transactions' reads.
 func inferPluginTypes(config *sharedConfig.PoliciesConfig) {
 	for i := range config.Global.Remedies {
@@ -553,6 +553,7 @@ func inferPluginTypes(config *sharedConfig.PoliciesConfig) {
 	}
 	for i := range config.Global.Diagnosis {
 		config.Global.Diagnosis[i].Type()
+		config.Global.Diagnosis[i].ExporterType()
 	}
 	for endpointI := range config.Endpoints {
 		endpoint := &config.Endpoints[endpointI]
@@ -561,6 +562,7 @@ func inferPluginTypes(config *sharedConfig.PoliciesConfig) {
 		}
 		for i := range endpoint.Diagnosis {
 			endpoint.Diagnosis[i].Type()
+			endpoint.Diagnosis[i].ExporterType()
 		}
 	}
 	for accountID, account := range config.Accounts {
